@@ -312,7 +312,7 @@ def obligations(tier, seed):
         for g in ("osu", "sm", "bms"):
             for h in itertools.product(ops3, repeat=3):
                 obs.append(Obligation("C12/hist3/%s/%s" % (g, "/".join(_n(o) for o in h)), partial(ob_map, g, "small", "reversed", list(h), False, None),
-                                      bound=B % (g, "small", "reversed") + "; three operations on one stack object", max_paths=8000, timeout_s=400))
+                                      bound=B % (g, "small", "reversed") + "; three operations on one stack object", max_paths=40000, timeout_s=1800))
     for g in GAMES:
         obs.append(Obligation("C12/mixed-stacks/%s" % g, partial(ob_mixed, g), bound="%s chart: full stack, stack restricted to hits, full stack, stack restricted to holds+tempo, full stack (conditional); symbolic operands" % g))
     for kind in ("sm", "o2j", "generic"):
